@@ -730,13 +730,14 @@ static void RegressWebSocket(bool handshake, const char * key)
       s2c.readLimit = L2 / 2; (void)C()->DoInput(rc); (void)C()->DoInput(rc); (void)C()->DoInput(rc, 1); s2c.readLimit = chopio::NO_OFFSET_LIMIT; (void)C()->DoInput(rc);
       if (why.empty() && C()->IsHandshakeInProgress()) why = vh::fmt("client: 101 reply delivered as %zu + %zu bytes with zero-byte reads in between: handshake still in progress (error status [%s])", L2 / 2, L2 - L2 / 2, C()->GetUnrecoverableErrorStatus()());
       vh::stat("regress_zero_byte_reads", chop.zeroReads);
+      if (!why.empty()) { vh::viol(key, why); C()->SetDataIO(DataIORef()); S()->SetDataIO(DataIORef()); return; }
    }
    // client -> server and server -> client text and binary frames arrive unaltered (lengths in all three length forms)
    std::vector<std::string> toS, toC; vh::Rng r(77);
    static const uint32 LENS[] = {19, 125, 126, 300, 70000};
    for (int i = 0; i < 5; i++) for (int d = 0; d < 2; d++) {
-      MessageRef t = GetMessageFromPool(PR_COMMAND_TEXT_STRINGS); OKB(t()->AddString(PR_NAME_TEXT_LINE, i == 0 ? "The quick brown fox" : RandLetters(r, LENS[i]).c_str())); Items(*t(), d ? toC : toS); OKB((d ? S() : C())->AddOutgoingMessage(t));
-      MessageRef b = GetMessageFromPool(PR_COMMAND_RAW_DATA); std::string bytes = RandBytes(r, LENS[i]); if (i == 1) for (size_t x = 0; x < bytes.size(); x++) bytes[x] = (char)x; OKB(b()->AddData(PR_NAME_DATA_CHUNKS, B_RAW_TYPE, bytes.data(), (uint32)bytes.size())); Items(*b(), d ? toC : toS); OKB((d ? S() : C())->AddOutgoingMessage(b));
+      MessageRef t = GetMessageFromPool(PR_COMMAND_TEXT_STRINGS); OKB(t()->AddString(PR_NAME_TEXT_LINE, i == 0 ? "The quick brown fox" : RandLetters(r, LENS[i]).c_str())); Items(*t(), d ? toC : toS); if ((d ? S() : C())->AddOutgoingMessage(t).IsError() && why.empty()) why = "AddOutgoingMessage() refused a text Message";
+      MessageRef b = GetMessageFromPool(PR_COMMAND_RAW_DATA); std::string bytes = RandBytes(r, LENS[i]); if (i == 1) for (size_t x = 0; x < bytes.size(); x++) bytes[x] = (char)x; OKB(b()->AddData(PR_NAME_DATA_CHUNKS, B_RAW_TYPE, bytes.data(), (uint32)bytes.size())); Items(*b(), d ? toC : toS); if ((d ? S() : C())->AddOutgoingMessage(b).IsError() && why.empty()) why = "AddOutgoingMessage() refused a raw-data Message";
    }
    for (int round = 0; round < 200; round++) { long n = 0; n += C()->DoOutput().GetByteCount(); n += S()->DoInput(rs).GetByteCount(); n += S()->DoOutput().GetByteCount(); n += C()->DoInput(rc).GetByteCount(); if (n <= 0) break; }
    if (why.empty() && rs.got != toS) { size_t i = 0; while (i < rs.got.size() && i < toS.size() && rs.got[i] == toS[i]) i++; why = vh::fmt("client->server: %zu items sent, %zu received, first difference at item %zu", toS.size(), rs.got.size(), i); if (i < toS.size() && i < rs.got.size()) why += " sent " + Show(toS[i], true) + " received " + Show(rs.got[i], true); }
